@@ -796,6 +796,9 @@ class ModelsMixin(object):
     # ================================================================ methods of symbolic values
     def call_sym_method(self, recv, name, args, kwargs):
         from .seqs import SymDict, SVSeq
+        from .extmodels import SSync, sync_method
+        if isinstance(recv, SSync):
+            return sync_method(self, recv, name, args, kwargs)
         if isinstance(recv, SVSeq):
             if name == "append":
                 if not is_byteslike(args[0]):
